@@ -3,7 +3,7 @@ prop(
     quick=[("native", 16)],
     thorough=[("native", 16), ("asan", 8), ("miri", 8), ("fuzz", 16)],
     level="exploration",
-    min_evals={"quick": 350_000, "thorough": 3_000_000},
+    min_evals={"quick": 450_000, "thorough": 7_000_000},
     # configuration of the `fuzz` stage (driver side: run_fuzz_stage in ../../check, target: harness/fuzz/fuzz_targets/c11_xml.rs)
     fuzz={
         "seconds": 120,
@@ -35,6 +35,19 @@ prop(
         "(suggested_sia_head, <issuer> not last, padded ski, <offer/>, <referral>, namespace without trailing slash), in several spellings (declaration, comments, quote style, attribute order, compact, "
         "explicit end tags, folded Base64, CRLF). If the decoder accepts the document, the returned message m must be written without error, the output must satisfy expat, parse back to m' == m, and "
         "writing m' must give the same bytes; a rejected document asserts nothing. Signature: (variant, set of parts left out, set of extras). "
+        "Lexical forms: a further pass writes the same population of documents (one third of them forced to be an RFC 6492 error_response or an RFC 8181 error reply, the two messages with free text; "
+        "<description> and <error_text> drawn from printable ASCII full of < & > ]]> </description> <![CDATA[ &amp; &#60; quotes) with one value (3 in 4 documents) or two to three values re-spelled in another way XML "
+        "allows for the same character data. Any attribute value of any element (xmlns, version, type, handles, URIs, tags, class names, resource sets, hashes, ski, error_code, xml:lang ...): the five predefined "
+        "entities for all markup characters, decimal / hexadecimal character references (markup characters only, every character, mixed, leading zeros, both hex cases), minimal escaping (> and the other quote raw), "
+        "white space around =, &#32; inside or at an edge, literal spaces at the edges, and - recorded only, the value then holds a control character - &#9; &#10; &#13; and literal tab / LF / CRLF. Any text node "
+        "(<description>, <error_text>, <status>, and the Base64 content of <certificate>, <issuer>, <request>, <publish>, <referral>, the four *_bpki_ta): one CDATA section (a ]]> inside split over two), CDATA mixed "
+        "with plain runs and references, an empty CDATA section next to the text, decimal / hex references, every character as a reference, predefined entities, a comment or a processing instruction inside / "
+        "before / after / around the text, literal white space (spaces, tab, LF, CRLF) around it, &#32; &#10; &#9; &#13; at its edges, CRLF inside (Base64: CRLF line folding). A text node that is not re-spelled is "
+        "mostly written free of markup characters so that the reader's verdict is about the re-spelled value. The judgement is the one above (accepted => written well-formed for expat, parsed back equal, written "
+        "again identically); rejection asserts nothing and is counted (lexical:accepted|rejected:<attr|text|base64>:<form>, lexical_slot:<text node>:<family>:..., lexical_free_text_delivered:with|without-lt-or-amp "
+        "= what the reader hands to the writers that copy free text out unescaped). A failure is attributed by writing the document again with every value plain (fails too => C11:text-roundtrip:*) and "
+        "with one value re-spelled at a time => C11:lexical-roundtrip:<variant>:<attr:element@name|text:element|base64:element>:<cdata|reference|comment-or-pi[+reference]|white-space[+reference]|quoting|attr-syntax>:<what>. "
+        "Signature: (variant, re-spelled slot, form) for accepted documents. "
         "The fuzz stage (thorough) adds coverage-guided libFuzzer executions of target c11_xml: input octet 0 selects one of the six parsers (provisioning::Message::decode, "
         "publication::Message::decode, ChildRequest / ParentResponse / PublisherRequest / RepositoryResponse::parse), the rest (up to 16 KiB) is the document; judged by the same "
         "function as the mutants (no panic in the parser, in writing an accepted value or in parsing that again; hook H1 drained). Seeded with up to 480 documents the library wrote "
@@ -48,6 +61,8 @@ prop(
         "resource chains built while parsing hostile attribute text are checked by hook H1; a non-canonical chain there is reported under C11:hook-h1:* although the cause lies in the resource text parser (C03)",
         "what an accepted mutant re-encodes to is recorded, not judged (its field values need not be protocol-valid)",
         "a message returned by a decoder for a document whose field values are all protocol-valid is a message constructed through the public API from protocol-valid field values; the round-trip law applies to it (text-level documents); a <publish>/<withdraw> without tag stays lenient there too",
+        "lexical forms: which spellings of character data the library's reader accepts is its choice (CDATA, references, comments or PIs inside element text are refused by the unchanged reader; all attribute spellings are accepted) - only what it accepts is judged; the value an XML processor would report for a spelling is recorded in the detail but the decoded field is not compared with it (the statement demands the round trip, not a conformant reader)",
+        "white space around element text (literal or pretty-printing) is layout, not content; a spelling that puts tab / CR / LF into a value (character references to them, literal line ends inside an attribute value or inside free text) makes the document lenient:control-character-in-value (recorded only)",
     ],
     level_text=(
         "Runtime monitoring of the real writers and parsers on generated messages: every written document is judged by an independent XML "
@@ -61,6 +76,6 @@ prop(
         "Sampling, not proof: string fields are ASCII only, lists up to ~600 entries, documents up to ~250 kB; certificate-bearing variants "
         "reuse 3 certificates / 3 CSRs / 2 identity certificates per shard; Miri sees no certificate-bearing variant and no expat verdicts."
     ),
-    technique="runtime oracle (independent expat parser + round-trip equivalence) over constructor-built messages and over messages decoded from independently written documents with every optional part present/absent; mutation-based and coverage-guided (libFuzzer) parser robustness; ASan + Miri",
+    technique="runtime oracle (independent expat parser + round-trip equivalence) over constructor-built messages and over messages decoded from independently written documents with every optional part present/absent and with every attribute value / text node in every lexical form of XML (CDATA, character and entity references, comments, PIs, white space), failures attributed by re-writing the document one spelling at a time; mutation-based and coverage-guided (libFuzzer) parser robustness; ASan + Miri",
     design_ref="DESIGN.md §4 C11",
 )
